@@ -427,7 +427,7 @@ pub fn run(cfg: &Config) -> i32 {
 	let started = Instant::now();
 	let thorough = cfg.tier == Tier::Thorough;
 	let mut total = Report::new();
-	let (n_batches, per) = if thorough { (16usize, 500usize) } else { (8usize, 60usize) };
+	let (n_batches, per) = if thorough { (16usize, 500usize) } else { (8usize, 150usize) };
 	let mut batches = Vec::new();
 	for b in 0..n_batches {
 		let mut rng = Rng::new(cfg.seed).fork(0xc19 + b as u64);
